@@ -19,7 +19,8 @@ RULE = (
     "1..64, enums <= 255, f32/f64, nested structs, arrays), frame ids 0..2047, bus names of 1-4 characters (some bindings "
     "without bus as non-matching controls); compiled once per program with the generic harness, the reflection binary loaded "
     "for the run-time schema. Per binding 8 (quick) / 40 (thorough) values and, per program, frames with non-matching "
-    "(id, bus): unused id with a used bus, used id with an unused / differently padded bus. Oracle for CanStaticSchema and "
+    "(id, bus): unused id with a used bus, used id with an unused bus, and near misses of a declared pair (bus extended by "
+    "one character, truncated, upper-cased, reversed; id off by one). Oracle for CanStaticSchema and "
     "CanDynamicSchema: (a) Encode(name, v) == {bus NUL-padded to 4, sid = id, dlc = len(canonical bytes), data = canonical "
     "bytes + zeros}; (b) Decode(that frame) == (name, v); (c) a frame whose (id, bus) matches no binding => nullopt; (d) "
     "both schemas agree. Non-trivial = program with >= 2 bindings, or a bus shorter than 4, or a payload that is not a byte "
@@ -53,9 +54,24 @@ def program(draw, n_values: int):
     used = {(M.plain_value(im.get("id")), M.plain_value(im.get("bus"))) for im in s.impls}
     strangers = []
     ids = sorted({i for i, _b in used})
-    for _ in range(draw(st.integers(2, 6))):
+    declared = sorted((i, b) for i, b in used if b is not None)
+    for _ in range(draw(st.integers(2, 8))):
         fid = draw(st.sampled_from(ids) | st.integers(0, 2047))
         bus = draw(st.sampled_from(buses + ["zz", "q", "dflt", "unkn", "None"]))
+        if declared and draw(st.booleans()):
+            # near misses of a declared (id, bus): the bus extended, truncated, case-changed, or the id off by one
+            bid, bbus = draw(st.sampled_from(declared))
+            k = draw(st.integers(0, 4))
+            if k == 0 and len(bbus) < 4:
+                fid, bus = bid, bbus + draw(st.sampled_from(["2", "x", "0"]))
+            elif k == 1 and len(bbus) > 1:
+                fid, bus = bid, bbus[:-1]
+            elif k == 2:
+                fid, bus = bid, bbus.upper()
+            elif k == 3:
+                fid, bus = (bid + 1) % 2048, bbus
+            else:
+                fid, bus = bid, bbus[::-1] if bbus[::-1] != bbus else bbus + "q"[: 4 - len(bbus)]
         nobus_ids = {i for i, b in used if b is None}
         # a binding without a bus has no defined tag (the static schema uses "unkn"): not a stranger
         if (fid, bus) not in used and fid not in nobus_ids:
